@@ -1,0 +1,14 @@
+//go:build verif
+
+// Contracts for package str, checked by /verif/govc. Comment-only: no code.
+package str
+
+// name(arg, arg) -> name and trimmed arguments; a misplaced bracket is an error, never a fault.
+//@ func ParseStringFunc
+//@ props C13 C15
+//@ modifies nothing
+//@ ensures [no-brackets-means-a-plain-name] imp(strings.IndexRune(shoot, '(') == -1 && strings.IndexRune(shoot, ')') == -1, result0 == shoot && len(result1) == 0 && result2 == nil)
+
+// n random runes of the alphabet (the default one when none is given); a negative n gives the empty string. No fault for any input.
+//@ func RandStringRunes
+//@ props C13 C11
